@@ -48,7 +48,7 @@ REQUIRED_THEOREMS = [
     "C12_protocol_no_batches", "C12_stop_at_epoch_start_no_batches", "C12_stop_at_train_start_no_batches",
     "C12_scheduler_once_per_epoch_no_batches", "C12_fit_args_no_rows", "C12_lambda_init", "C12_lambda_dispatch",
     "C12_fit_args_abort",
-    "C12_refused_request_leaves_flag", "C12_exception_trace", "C12_container_ops", "C12_container_ops_dispatch", "C12_timer_transparent",
+    "C12_refused_request_leaves_flag_partial", "C12_exception_trace_partial", "C12_container_ops", "C12_container_ops_dispatch", "C12_timer_transparent",
     "C12_timer_prints", "C12_exception_no_train_end",
 ]
 RULE = ("case = session on one state object (kind) of 1..3 consecutive fit calls, each call = (starting_epoch, epochs, N, "
